@@ -179,6 +179,28 @@ func TestC05(t *testing.T) {
 				}
 			}
 		}
+		// 3. pool numbers and other tokens with every next byte
+		if e.enumStage("pool", "number pool and non-numeric tokens x 256 next bytes", true) {
+			toks := append([]string{}, gen.Nums...)
+			toks = append(toks, "-", "- 1", "+1", "-0", "-00", "00", "01", "-01", "0x1", "1.", "1e", "1e+", "null", "true", `"1"`, "[1]", "{}", "", " ", "٣", "1_000", "1,000")
+			buf := make([]byte, 0, 64)
+		pool:
+			for ti, tok := range toks {
+				if !e.cfg.Mine(ti) {
+					continue
+				}
+				if !run("pool", []byte(tok)) {
+					break
+				}
+				for b := 0; b < 256; b++ {
+					buf = append(append(buf[:0], tok...), byte(b))
+					if !run("pool.nextbyte", buf) {
+						break pool
+					}
+				}
+			}
+		}
+		e.feed(feedOpts{counts: 2, shortlexQ: 3, shortlexT: 5, sweepQ: 30, sweepT: 2000, numShapes: 1}, func(kind string, in []byte) error { return eval(kind, in) })
 		// 2c. complete position x byte sweep (every truncation, 256 substitutions, 256 insertions at
 		// every position) of signed / unsigned integer tokens with and without whitespace round
 		// them: every byte that can stand between the sign and the first digit, inside the
@@ -203,27 +225,5 @@ func TestC05(t *testing.T) {
 				}
 			}
 		}
-		// 3. pool numbers and other tokens with every next byte
-		if e.enumStage("pool", "number pool and non-numeric tokens x 256 next bytes", true) {
-			toks := append([]string{}, gen.Nums...)
-			toks = append(toks, "-", "- 1", "+1", "-0", "-00", "00", "01", "-01", "0x1", "1.", "1e", "1e+", "null", "true", `"1"`, "[1]", "{}", "", " ", "٣", "1_000", "1,000")
-			buf := make([]byte, 0, 64)
-		pool:
-			for ti, tok := range toks {
-				if !e.cfg.Mine(ti) {
-					continue
-				}
-				if !run("pool", []byte(tok)) {
-					break
-				}
-				for b := 0; b < 256; b++ {
-					buf = append(append(buf[:0], tok...), byte(b))
-					if !run("pool.nextbyte", buf) {
-						break pool
-					}
-				}
-			}
-		}
-		e.feed(feedOpts{counts: 2, shortlexQ: 3, shortlexT: 5, sweepQ: 30, sweepT: 2000, numShapes: 1}, func(kind string, in []byte) error { return eval(kind, in) })
 	})
 }
